@@ -297,7 +297,8 @@ def bounded(tier, seed, procs):
                 if why:
                     break
         else:
-            if det != 0 and _integral_solution(A, B, c) and not issubclass(r[1], RuntimeError):
+            if det != 0 and _integral_solution(A, B, c):
+                # a uniquely and integrally solvable system is neither "not uniquely determined" nor "not integral": it must be solved
                 why = f"solvable system rejected with {outcome.describe(r)}"
         if r[0] == "val" and det == 0 and why is None:
             why = "singular system accepted"
